@@ -96,9 +96,9 @@ pub fn c16_l3_setup_receiver_ledger() {
     let res = setup_receiver::<SpyAead16, LinKdf, ToyKemLin>(&OpModeR::Base, &XorPrivateKey(sk_r), &enc_from(enc), &info[..il]);
     if res.is_ok() {
         let (kd, kdirty) = ledger::read(ledger::AEAD_KEY);
-        assert!(kd == 1 && kdirty == 0, "temporary AEAD key not wiped before setup returns");
+        assert!(kd >= 1 && kdirty == 0, "temporary AEAD key not wiped before setup returns");
         let (sd, sdirty) = ledger::read(ledger::SHARED_SECRET);
-        assert!(sd == 1 && sdirty == 0, "shared secret not wiped");
+        assert!(sd >= 1 && sdirty == 0, "shared secret not wiped");
         // the context still owns nonce and exporter secret
         assert!(ledger::read(ledger::AEAD_NONCE).1 == 0 && ledger::read(ledger::EXPORTER_SECRET).1 == 0);
         drop(res);
@@ -124,9 +124,9 @@ pub fn c16_l3_setup_sender_ledger() {
     let res = setup_sender::<SpyAead16, LinKdf, ToyKemLin, _>(&OpModeS::Base, &XorPublicKey(pk_r), &[], &mut rng);
     if res.is_ok() {
         let (kd, kdirty) = ledger::read(ledger::AEAD_KEY);
-        assert!(kd == 1 && kdirty == 0, "temporary AEAD key not wiped before setup returns");
+        assert!(kd >= 1 && kdirty == 0, "temporary AEAD key not wiped before setup returns");
         let (sd, sdirty) = ledger::read(ledger::SHARED_SECRET);
-        assert!(sd == 1 && sdirty == 0, "shared secret not wiped");
+        assert!(sd >= 1 && sdirty == 0, "shared secret not wiped");
         drop(res);
         assert!(ledger::read(ledger::AEAD_NONCE).1 == 0 && ledger::read(ledger::AEAD_NONCE).0 >= 1);
         assert!(ledger::read(ledger::EXPORTER_SECRET).1 == 0 && ledger::read(ledger::EXPORTER_SECRET).0 >= 1);
